@@ -128,6 +128,14 @@ def child_state_callback(it):
     def f(it2, a, k):
         it2.ctx.ghost.setdefault('callback_calls', []).append(('make_child_parsing_state', list(a), dict(k)))
         st = mk_parsing_state(it2, 'child_parsing_state', db_inv=True)
+        # A-CHILDSTATE: a child-state callback changes group delimiters only -- the math-delimiter tables of the state it returns are
+        # those of the state it was given (true of the two callbacks in the package: identity, and the bracket-group one, whose
+        # states differ in latex_group_delimiters only: C02 units get_group_parsing_state / make_child_parsing_state)
+        given = a[0] if a else k.get('parsing_state')
+        if isinstance(given, Obj):
+            for t in ('_math_delims_info_by_open', '_math_all_delims_by_len', '_math_delims_info_startchars', '_math_delims_close'):
+                if t in given.fields:
+                    st.fields[t] = given.fields[t]
         it2.ctx.ghost.setdefault('child_states', []).append(st)
         return st
     return Builtin('make_child_parsing_state', f)
@@ -310,9 +318,14 @@ def register(reg):
             ('group-parser-always-yields-its-node', "implies(p_kind(parser) == 'group_parser', result[0] is not None)"),
             # verified for the real math parser by LatexDelimitedExpressionParser.parse / LatexMathParserInfo.is_opening_delimiter
             # (contracts/delimited.py, contracts/mathmode.py): a token that opens no delimiter pair makes it raise, not return
-            ('a-math-parser-asked-for-a-delimiter-that-opens-nothing-does-not-return', 'math_parser_opens(parser, parsing_state)'),
+            # ... in strict mode.  In tolerant mode parse_content swallows that error and comes back with the reader reset to the
+            # very token (recovery_at_token): NO progress is promised then, so a collector that hands a closing delimiter to
+            # the math parser cannot rely on this call to advance
+            ('a-math-parser-asked-for-a-delimiter-that-opens-nothing-does-not-return-in-strict-mode',
+             'implies(not self.tolerant_parsing, math_parser_opens(parser, parsing_state))'),
             ('delimited-parsers-consume-their-opening-delimiter',
-             "implies(p_kind(parser) == 'group_parser' or p_kind(parser) == 'math_parser', %s < token_reader._pos)" % START),
+             "implies(p_kind(parser) == 'group_parser' or (p_kind(parser) == 'math_parser' and math_parser_opens(parser, parsing_state)), "
+             "%s < token_reader._pos)" % START),
             ('node-lies-in-range', 'result[0] is None or (%s <= result[0].pos and result[0].pos <= result[0].pos_end '
                                    'and result[0].pos_end <= len(self.s))' % START),
             ('strict:node-spans-exactly-what-was-consumed',
@@ -578,6 +591,12 @@ def register(reg):
 
     for k in units:
         contracts.REPLAYERS[k] = replay
+    for pid_ in ('C01', 'C02', 'C05', 'C06', 'C10'):
+        contracts.EXTRA_ASSUMPTIONS.setdefault(pid_, [])
+        contracts.EXTRA_ASSUMPTIONS[pid_] = list(contracts.EXTRA_ASSUMPTIONS[pid_]) + [
+            "A-CHILDSTATE: a make_child_parsing_state callback given to the nodes collector returns a state whose math-delimiter "
+            "tables are those of the state it was given (the two callbacks in the package change group delimiters only: C02 "
+            "units); with it, a math delimiter that passed the collector's own check also opens a formula for the math parser"]
     return {'C01': units}
 
 
